@@ -37,4 +37,6 @@ BloomCases == {[Base(1, <<<<>>>>) EXCEPT !.roots = <<>>, !.trk = "bloom", !.cap 
              \cup {[Base(1, <<<<>>>>) EXCEPT !.roots = <<>>, !.trk = "map"]}
 
 WalkCases == ShapeCases \cup AttrCases \cup AliasCases
+\* the dedup counter is the only unbounded variable of the tracker-driver configurations
+BloomBound == dedup <= 3
 =============================================================================
